@@ -7,7 +7,7 @@ Encoding shared with harness/c17_canon.go:
            4 A (block assembly of block b) 5 AW (assembly worker b,i) 6 W1a 7 W1b (first-wave worker b,i, spawned
            before / after the core loop took its first request) 8 W2a 9 W2b (second wave) 10 AR (archive writer j)
   var    = idx*16 + class        1 nfn 2 etq 3 blk 4 seg 5 arch 6 afill 7 pst 8 ptrig 9 bcon 10 trs 11 wsa 12 wsc 13 vip 14 bst 15 lastm 0 rloc
-  object = idx*16 + class        1 nb 2 bufc 3 qreq 4 qres 5 cm 6 cmpl 7 fl 8 wsm 9 cfg 10 wga 11 wgp 12 rund 13 abort
+  object = idx*16 + class        1 nb 2 bufc 3 qreq 4 qres 5 cm 6 cmpl 7 fl 8 wsm 9 cfg 10 wga 11 wgp 12 rund 13 abort 14 rundone
   token  = var*2 + share        (ptrig, bcon, wsa have two shares: a read needs one, a write both)
 -/
 import DastardV.Proto
@@ -99,7 +99,8 @@ def mkSpec (p : Par) : Spec where
     else if cls == 5 then [tk 10 idx 0]
     else if cls == 6 then [tk 6 idx 0]
     else []
-  closePay := fun _ => []
+  -- the close of the per-run channel `rundone` (class 14) hands the writing state to the Stop caller that waits for it
+  closePay := fun c => if c == enc 14 0 then [tk 11 0 0, tk 12 0 0] else []
   mtxPay := fun m =>
     if clsOf m == 15 then (if used p (idxOf m) then [] else [idxOf m])
     else if m == enc 7 0 then (if p.src == 1 then [nfnTok, tk 2 0 0] else [])
@@ -111,7 +112,6 @@ def mkSpec (p : Par) : Spec where
     let kind := clsOf t
     if cls == 10 then (if kind == 5 then spawnPayOf p t else [])
     else if cls == 11 then (if 6 ≤ kind ∧ kind ≤ 9 then spawnPayOf p t else [])
-    else if cls == 12 then (if t == enc 1 0 then [tk 11 0 0, tk 12 0 0] else [])
     else []
   spawnPay := spawnPayOf p
   init := fun k =>
